@@ -94,6 +94,14 @@ func vAssume(c bool) {
 	}
 }
 
+func vOrdered(keys [][]byte) {
+	for i := 0; i+1 < len(keys); i++ {
+		if bytes.Compare(keys[i], keys[i+1]) >= 0 {
+			panic(vAbort{"assume"})
+		}
+	}
+}
+
 func vAssert(c bool, label string) {
 	if !c {
 		panic(vFailure{label})
